@@ -72,6 +72,8 @@ structure EmplaceSpec (P : Policy σ) (Ok : σ → Prop) (s : Shard σ) (r : Rec
   /-- the record is findable afterwards, everything else that is findable was findable before -/
   index_new : r ∈ res.1.index
   index_old : ∀ x, x ∈ res.1.index → x = r ∨ x ∈ s.index
+  /-- conservation: the new record plus what was indexed = what is indexed now plus what left -/
+  perm : (r :: s.index).Perm (res.1.index ++ res.2.1.map (·.2))
   shape : ∃ (s1 : Shard σ) (vs : List Rec) (repl : List (Reason × Rec)),
     EvictSpec P Ok (s.cap - r.weight) s [] (s1, vs, false) ∧
     res.2.1 = vs.map (fun v => (Reason.evict, v)) ++ repl ∧
@@ -91,7 +93,7 @@ theorem emplace_spec (L : Lawful P Ok) {s : Shard σ} (h : ShardInv P Ok s) {r :
   have hpk : pk = false := es.no_panic
   subst hpk
   have h1 : ShardInv P Ok s1 := es.inv
-  obtain ⟨vs', hvs, hu, he, hneed, hidx, hsub⟩ := es.victims
+  obtain ⟨vs', hvs, hu, he, hneed, hidx, hsub, hnd⟩ := es.victims
   simp only [List.nil_append] at hvs
   have hvs' : vs = vs' := hvs
   subst hvs'
@@ -119,7 +121,22 @@ theorem emplace_spec (L : Lawful P Ok) {s : Shard σ} (h : ShardInv P Ok s) {r :
       have := (L.remove_mem _ _ h1.ok hm x).mp hx
       exact hfresh1 x ((h1.mem_iff x).mp this.1) hxe
     have hwo := weight_le_wsum hoi.1
-    refine ⟨rfl, ⟨L.push_ok _ _ hokr hnotin, ?_, ?_, ?_, ?_⟩, es.cap_eq, List.mem_cons_self, ?_, ?_⟩
+    have hperm1 : s.index.Perm (s1.index ++ vs) := EvictSpec.perm h es
+    have hperm2 : s1.index.Perm (old :: eraseKey r.key s1.index) := by
+      apply (List.perm_ext_iff_of_nodup (nodup_of_keysNodup h1.keys) ?_).mpr
+      · intro x
+        rw [List.mem_cons, hmem1 x]
+        constructor
+        · intro hx
+          by_cases he : x = old
+          · exact Or.inl he
+          · exact Or.inr ⟨hx, he⟩
+        · rintro (rfl | ⟨hx, _⟩)
+          · exact hoi.1
+          · exact hx
+      · rw [List.nodup_cons]
+        exact ⟨fun hin => ((hmem1 old).mp hin).2 rfl, nodup_of_keysNodup (keysNodup_eraseKey h1.keys)⟩
+    refine ⟨rfl, ⟨L.push_ok _ _ hokr hnotin, ?_, ?_, ?_, ?_⟩, es.cap_eq, List.mem_cons_self, ?_, ?_, ?_⟩
     · intro x
       show x ∈ P.members (P.push (P.remove s1.ev old) r) ↔ x ∈ r :: eraseKey r.key s1.index
       rw [L.push_mem _ _ hokr hnotin x, L.remove_mem _ _ h1.ok hm x, List.mem_cons, hmem1 x, h1.mem_iff x]
@@ -136,7 +153,16 @@ theorem emplace_spec (L : Lawful P Ok) {s : Shard σ} (h : ShardInv P Ok s) {r :
       rcases List.mem_cons.mp hx with rfl | hx'
       · exact Or.inl rfl
       · exact Or.inr ((hidx x).mp ((hmem1 x).mp hx').1).1
-    · refine ⟨s1, vs, [(Reason.replace, old)], ⟨rfl, h1, es.cap_eq, ⟨vs, by simp, hu, he, hneed, hidx, hsub⟩, es.done⟩, rfl, Or.inr ⟨old, rfl, hold, ?_, rfl⟩⟩
+    · show (r :: s.index).Perm ((r :: eraseKey r.key s1.index) ++ (vs.map (fun v => (Reason.evict, v)) ++ [(Reason.replace, old)]).map (·.2))
+      simp only [List.map_append, List.map_map, List.map_cons, List.map_nil]
+      have e : (List.map ((fun x : Reason × Rec => x.2) ∘ fun v => (Reason.evict, v)) vs) = vs := by
+        have : ((fun x : Reason × Rec => x.2) ∘ fun v => (Reason.evict, v)) = id := rfl
+        rw [this, List.map_id]
+      rw [e]
+      have := (hperm1.trans (hperm2.append_right vs)).cons r
+      refine this.trans ?_
+      grind
+    · refine ⟨s1, vs, [(Reason.replace, old)], ⟨rfl, h1, es.cap_eq, ⟨vs, by simp, hu, he, hneed, hidx, hsub, hnd⟩, es.done⟩, rfl, Or.inr ⟨old, rfl, hold, ?_, rfl⟩⟩
       show s1.usage - old.weight + r.weight + old.weight = s1.usage + r.weight
       have := h1.usage_eq; omega
   · -- plain insert
@@ -146,7 +172,8 @@ theorem emplace_spec (L : Lawful P Ok) {s : Shard σ} (h : ShardInv P Ok s) {r :
       intro hc
       obtain ⟨x, hx, hxe⟩ := List.mem_map.mp hc
       exact hfresh1 x ((h1.mem_iff x).mp hx) hxe
-    refine ⟨rfl, ⟨L.push_ok _ _ h1.ok hnotin, ?_, ?_, ?_, ?_⟩, es.cap_eq, List.mem_cons_self, ?_, ?_⟩
+    have hperm1 : s.index.Perm (s1.index ++ vs) := EvictSpec.perm h es
+    refine ⟨rfl, ⟨L.push_ok _ _ h1.ok hnotin, ?_, ?_, ?_, ?_⟩, es.cap_eq, List.mem_cons_self, ?_, ?_, ?_⟩
     · intro x
       show x ∈ P.members (P.push s1.ev r) ↔ x ∈ r :: s1.index
       rw [L.push_mem _ _ h1.ok hnotin x, List.mem_cons, h1.mem_iff x]
@@ -163,7 +190,14 @@ theorem emplace_spec (L : Lawful P Ok) {s : Shard σ} (h : ShardInv P Ok s) {r :
       rcases List.mem_cons.mp hx with rfl | hx'
       · exact Or.inl rfl
       · exact Or.inr ((hidx x).mp hx').1
-    · exact ⟨s1, vs, [], ⟨rfl, h1, es.cap_eq, ⟨vs, by simp, hu, he, hneed, hidx, hsub⟩, es.done⟩, by simp, Or.inl ⟨rfl, hnone, rfl, rfl⟩⟩
+    · show (r :: s.index).Perm ((r :: s1.index) ++ (vs.map (fun v => (Reason.evict, v))).map (·.2))
+      simp only [List.map_map]
+      have e : (List.map ((fun x : Reason × Rec => x.2) ∘ fun v => (Reason.evict, v)) vs) = vs := by
+        have : ((fun x : Reason × Rec => x.2) ∘ fun v => (Reason.evict, v)) = id := rfl
+        rw [this, List.map_id]
+      rw [e]
+      exact hperm1.cons r
+    · exact ⟨s1, vs, [], ⟨rfl, h1, es.cap_eq, ⟨vs, by simp, hu, he, hneed, hidx, hsub, hnd⟩, es.done⟩, by simp, Or.inl ⟨rfl, hnone, rfl, rfl⟩⟩
 
 /-- `emplace` of a phantom (disk-only) record: nothing is evicted, the record is not indexed. -/
 theorem emplace_phantom_spec (L : Lawful P Ok) {s : Shard σ} (h : ShardInv P Ok s) {r : Rec}
